@@ -496,8 +496,9 @@ func expandInitilaisms(s string) string {
 func enumValueName(v interface{}) string {
 	s, ok := v.(string)
 	if !ok {
-		// numbers: 5 -> "5", -2 -> "Minus2", 1.5 -> "1_5"
-		s = strings.NewReplacer("-", "minus_", ".", "_", "+", "").Replace(fmt.Sprint(v))
+		// numbers: 5 -> "5", -2 -> "Minus2", 1.5 -> "1Point5" (not "15", the
+		// name of the value 15)
+		s = strings.NewReplacer("-", "minus_", ".", "_point_", "+", "").Replace(fmt.Sprint(v))
 	}
 	return FieldName(s)
 }
@@ -518,7 +519,9 @@ func printVal(v interface{}, t string) string {
 	case "bool":
 		return fmt.Sprintf(`%t`, v)
 	case "string":
-		return fmt.Sprintf(`"%s"`, v)
+		// quoted as Go quotes a string: the value may hold quotes or
+		// backslashes
+		return fmt.Sprintf(`%q`, v)
 	}
 	return ""
 }
